@@ -74,11 +74,11 @@ def featDialect (src : List Feature) (checklines : Nat) : Dialect :=
 /-- the common `__iter__`: set the dialect, apply the transform once, drop falsy results -/
 def applyTransform (d : Dialect) (transform : Option (Feature → Option Feature)) (fs : List Feature) :
     List Feature :=
-  fs.filterMap (fun f =>
-    let f := { f with dialect := d }
+  fs.filterMap (fun f0 =>
+    let g : Feature := { f0 with dialect := d }
     match transform with
-    | none => some f
-    | some t => t f)
+    | none => some g
+    | some t => t g)
 
 /-- full iteration of a file input with an already chosen dialect -/
 def fileIterate (lines : List Str) (d : Dialect) (transform : Option (Feature → Option Feature)) :
